@@ -79,6 +79,64 @@ def lst(items):
     return "[" + "; ".join(items) + "]" if items else "[]"
 
 
+def prop_programs(meta, img, name, attr, argname):
+    """setter / deleter / getter-default of a ClassInstanceProperty of ITerm2ImageMeta"""
+    where = f"ITerm2ImageMeta.{name}"
+    assigns = [s for s in meta.body if isinstance(s, ast.Assign) and len(s.targets) == 1
+               and isinstance(s.targets[0], ast.Name) and s.targets[0].id == name]
+    need(len(assigns) == 1 and isinstance(assigns[0].value, ast.Call)
+         and ast.unparse(assigns[0].value.func) == "ClassInstanceProperty" and len(assigns[0].value.args) == 1,
+         f"{where}: not one `ClassInstanceProperty(<getter>, doc=...)` assignment")
+    g = assigns[0].value.args[0]
+    need(isinstance(g, ast.Lambda) and [a.arg for a in g.args.args] == ["self"] and isinstance(g.body, ast.Call)
+         and ast.unparse(g.body.func) == "getattr" and len(g.body.args) == 3
+         and ast.unparse(g.body.args[0]) == "self" and ast.unparse(g.body.args[1]) == repr(attr)
+         and isinstance(g.body.args[2], (ast.Constant, ast.UnaryOp)),
+         f"{where}: getter is not `lambda self: getattr(self, {attr!r}, <constant>)`")
+    default = ast.literal_eval(g.body.args[2])
+    fs = {}
+    for f in meta.body:
+        if isinstance(f, ast.FunctionDef) and f.name == name:
+            d = [ast.unparse(x) for x in f.decorator_list]
+            need(d in ([f"{name}.setter"], [f"{name}.deleter"]), f"{where}: decorators {d}")
+            fs[d[0].split(".")[1]] = f
+    need(set(fs) == {"setter", "deleter"}, f"{where}: setter / deleter not found")
+    need([a.arg for a in fs["setter"].args.args] == ["self", argname] and [a.arg for a in fs["deleter"].args.args] == ["self"],
+         f"{where}: parameter lists changed")
+    cs = {f"not isinstance({argname}, int)": "PNotInt", f"not isinstance({argname}, bool)": "PNotBool"}
+    prog = []
+    for st in fs["setter"].body:
+        u = ast.unparse(st)
+        if isinstance(st, ast.Expr) and isinstance(st.value, ast.Constant) and isinstance(st.value.value, str):
+            continue
+        if isinstance(st, ast.If) and not st.orelse and len(st.body) == 1 and isinstance(st.body[0], ast.Raise):
+            t = ast.unparse(st.test)
+            if t in cs:
+                prog.append(f"PRaiseIf {cs[t]}")
+            elif isinstance(st.test, ast.Compare) and len(st.test.ops) == 1 and isinstance(st.test.ops[0], ast.Gt) \
+                    and ast.unparse(st.test.left) == argname and isinstance(st.test.comparators[0], ast.Constant) \
+                    and type(st.test.comparators[0].value) is int:
+                prog.append(f"PRaiseIf (PGt ({st.test.comparators[0].value})%Z)")
+            else:
+                raise Refuse(f"{where}.setter: condition outside the subset: {t[:80]}")
+        elif u == f"self.{attr} = {argname}":
+            prog.append("PSet")
+        else:
+            raise Refuse(f"{where}.setter: statement outside the subset: {u.splitlines()[0][:80]}")
+    dbody = [st for st in fs["deleter"].body
+             if not (isinstance(st, ast.Expr) and isinstance(st.value, ast.Constant) and isinstance(st.value.value, str))]
+    need([ast.unparse(x) for x in dbody] == [f"try:\n    del self.{attr}\nexcept AttributeError:\n    pass"],
+         f"{where}.deleter: body changed")
+    # the instance-level property of ITerm2Image re-uses the three functions
+    ia = [s for s in img.body if isinstance(s, ast.Assign) and len(s.targets) == 1
+          and isinstance(s.targets[0], ast.Name) and s.targets[0].id == name]
+    need(len(ia) == 1 and isinstance(ia[0].value, ast.Call) and ast.unparse(ia[0].value.func) == "ClassInstanceProperty"
+         and [ast.unparse(a) for a in ia[0].value.args] == [f"ITerm2ImageMeta.{name}.fget", f"ITerm2ImageMeta.{name}.fset",
+                                                            f"ITerm2ImageMeta.{name}.fdel"],
+         f"ITerm2Image.{name}: does not re-use the metaclass property's fget / fset / fdel")
+    return prog, ["PDel"], default
+
+
 def main():
     tree = parse("src/term_image/image/common.py")
     cls = find_class(tree, "BaseImage")
@@ -141,16 +199,42 @@ def main():
                      f"({a.get('_default_render_method')!r}) differ in the class body")
                 need("_render_methods" in a, f"{c.name}: pins a render method without `_render_methods`")
                 pins.append(c.name)
+    it2 = parse("src/term_image/image/iterm2.py")
+    meta, img = find_class(it2, "ITerm2ImageMeta"), find_class(it2, "ITerm2Image")
+    jq_set, jq_del, jq_def = prop_programs(meta, img, "jpeg_quality", "_jpeg_quality", "quality")
+    rf_set, rf_del, rf_def = prop_programs(meta, img, "read_from_file", "_read_from_file", "policy")
+    need(type(jq_def) is int and type(rf_def) is bool, f"getter defaults changed type: {jq_def!r}, {rf_def!r}")
+    for attr in ("_jpeg_quality", "_read_from_file"):
+        w = []
+        for p in sorted(root.rglob("*.py")):
+            t = ast.parse(p.read_text(), filename=str(p))
+            for n in ast.walk(t):
+                tg = n.targets if isinstance(n, (ast.Assign, ast.Delete)) else [n.target] if isinstance(n, (ast.AugAssign, ast.AnnAssign)) else []
+                for x in tg:
+                    if isinstance(x, ast.Attribute) and x.attr == attr:
+                        w.append(f"{p.relative_to(root)}:{n.lineno}")
+                    if isinstance(x, ast.Name) and x.id == attr:
+                        w.append(f"{p.relative_to(root)}:{n.lineno} (class body)")
+        need(len(w) == 2 and all(x.startswith("image/iterm2.py:") and "class body" not in x for x in w),
+             f"writers of `{attr}` other than the property's setter and deleter: {w[:4]}")
     text = ("(** GENERATED by harness/tx/tx_settings.py from the working tree of the repository — do not edit.\n"
             "    Regenerated (and rewritten only if changed) on every check run. *)\n"
-            "From Coq Require Import List String.\nImport ListNotations.\n"
+            "From Coq Require Import List String ZArith.\nImport ListNotations.\n"
             "From TI Require Import model.SettingsProg.\nOpen Scope string_scope.\n\n"
             "(** image/common.py: BaseImage.set_render_method, class-level variant *)\n"
             f"Definition src_set_render_method_cls : list sstmt := {lst(cprog)}.\n"
             "(** image/common.py: BaseImage.set_render_method, instance-level variant *)\n"
             f"Definition src_set_render_method_inst : list sstmt := {lst(iprog)}.\n"
             "(** style classes whose class body pins `_render_method = _default_render_method` *)\n"
-            f"Definition src_pinned_styles : list string := {lst([chr(34) + n + chr(34) for n in pins])}.\n")
+            f"Definition src_pinned_styles : list string := {lst([chr(34) + n + chr(34) for n in pins])}.\n"
+            "(** image/iterm2.py: ITerm2ImageMeta.jpeg_quality (setter, deleter, the getter's default); ITerm2Image re-uses them *)\n"
+            f"Definition src_jpeg_quality_set : list pstmt := {lst(jq_set)}.\n"
+            f"Definition src_jpeg_quality_del : list pstmt := {lst(jq_del)}.\n"
+            f"Definition src_jpeg_quality_default : BinNums.Z := ({jq_def})%Z.\n"
+            "(** image/iterm2.py: ITerm2ImageMeta.read_from_file *)\n"
+            f"Definition src_read_from_file_set : list pstmt := {lst(rf_set)}.\n"
+            f"Definition src_read_from_file_del : list pstmt := {lst(rf_del)}.\n"
+            f"Definition src_read_from_file_default : bool := {'true' if rf_def else 'false'}.\n")
     if not OUT.exists() or OUT.read_text() != text:
         OUT.parent.mkdir(parents=True, exist_ok=True)
         OUT.write_text(text)
